@@ -81,6 +81,9 @@ def shards(tier, seed):
             sh.append(("single", "P0", pers, conn))
             sh.append(("lists", "P0", pers, conn))
     sh.append(("online", "P0", "v20", 500))
+    # two drivers in one process on two controllers whose equally named tags differ in instance id, type layout and content
+    for pers in ("v20", "v32"):
+        sh.append(("twins", "P1", pers, 4000))
     return sh
 
 
@@ -140,9 +143,46 @@ def online_shard(rep, pers, conn):
     w.__exit__()
 
 
+def twins_shard(rep, pers, conn):
+    """History across driver objects: nothing learned from one controller may leak into requests to another."""
+    import pycomm3
+
+    worlds = []
+    for k in range(2):
+        proj = projgen.build("P1", k, reduced=True)
+        tags = list(proj.all_tags())
+        if k == 1:  # same names, instance ids permuted
+            ids = [t.instance_id for t in tags]
+            for t, i in zip(tags, ids[1:] + ids[:1]):
+                t.instance_id = i
+        ctl = logix.LogixController(proj, pers)
+        t = enip.Target(ctl, enip.Policy(large_fo="accept" if conn == 4000 else "refuse08"), keep_cip=False)
+        w = net.World(t, io_budget=10**9)
+        with w:
+            d = pycomm3.LogixDriver(f"10.0.0.{k + 1}")
+            o = call(d.open)
+        worlds.append((proj, w, d, o))
+    reqs = [x for x, c in Q.read_requests(worlds[0][0]) if Q.read_expect(worlds[0][0], x)[0] == "ok"][::3]
+    for rnd in range(2):
+        for k in (0, 1, 0):
+            proj, w, d, o = worlds[k]
+            with w:
+                for text in reqs:
+                    want = Q.read_expect(proj, text)
+                    out = call(d.read, text)
+                    probs = [("exception", repr(out)[:100])] if out[0] != "ok" else judge(out[1], want, text)
+                    rep.case(("twins", pers, k, rnd, text), outcome="ok" if not probs else probs[0][0])
+                    for clause, detail in probs:
+                        rep.violation(f"read/two-controllers/{clause}", f"driver #{k} (round {rnd}) {pers}: read({text!r}) {detail}", {"cfg": ["P1", pers, conn], "image": k, "requests": [text], "choices": []})
+    rep.sample({"two_controllers": pers, "requests_each": len(reqs)})
+
+
 def run_shard(shard, tier, seed):
     rep = Report()
     kind, pn, pers, conn = shard
+    if kind == "twins":
+        twins_shard(rep, pers, conn)
+        return rep
     if kind == "online":
         online_shard(rep, pers, conn)
         return rep
